@@ -451,6 +451,115 @@ def run_constants(ctx, corr):
     corr.sample({'constants': {'literals': len(lits), 'first': [l + s for l, s, _ in lits[:5]]}})
 
 
+# -------------------------------------------------------------------------------------------------- text tie (model <-> chibicc -S)
+
+def asm_body(text):
+    """instruction lines of function f between the prologue and the final `jmp .L.return.f`, comments stripped"""
+    lines = [l for l in text.splitlines() if not re.match(r'\s*\.(loc|file)\b', l)]
+    try:
+        i = lines.index('f:')
+        j = lines.index('.L.return.f:')
+    except ValueError:
+        return None
+    body = lines[i + 1:j]
+    pro = ['  push %rbp', '  mov %rsp, %rbp']
+    if body[:2] != pro or not re.fullmatch(r'  sub \$\d+, %rsp', body[2]) or body[3] != '  mov %rsp, -8(%rbp)':
+        return None
+    body = body[4:]
+    if not body or body[-1] != '  jmp .L.return.f':
+        return None
+    body = body[:-1]
+    return [re.sub(r'\s+#.*$', '', l) for l in body]
+
+
+TIE_OPS = ['add', 'sub', 'mul', 'div', 'eq', 'ne', 'lt', 'le', 'gt', 'ge']
+TIE_LITS = ['1.5', '0.1', '3.4028235e38', '1e-45', '16777217.0', '0x1.000001p0', '1.0000000596046447753906251', '1e39',
+            '1.000000000000000111022302462515654042363166809082031251', '0x1.00000000000008000001p0', '1e400', '4.9406564584124654e-324',
+            '0.0', '2.5', '1e22', '0x1.8p-16400', '18446744073709551615.0', '0x1.ffffffffffffffffp16383']
+
+
+def tie_cases(ctx):
+    """[(driver spec line, C source)]"""
+    C = O.CNAME
+    cases = []
+    for f in O.ATYS:
+        for t in O.ATYS:
+            cases.append((f'cast {f} {t}', f'{C[f]} a;\n{C[t]} f(void) {{ return ({C[t]})a; }}\n'))
+    cop = dict(O.ARITH + O.RELS)
+    rank = {'f32': 1, 'f64': 2, 'f80': 3}
+    for t1 in O.ATYS:
+        for t2 in O.ATYS:
+            if t1 not in FMT and t2 not in FMT:
+                continue
+            ct = max((t for t in (t1, t2) if t in FMT), key=lambda t: rank[t])
+            for op in TIE_OPS:
+                rt = C[ct] if op in ('add', 'sub', 'mul', 'div') else 'int'
+                cases.append((f'bin {op} {t1} {t2}', f'{C[t1]} a;\n{C[t2]} b;\n{rt} f(void) {{ return a {cop[op]} b; }}\n'))
+    for t in O.FTYS:
+        cases.append((f'neg {t}', f'{C[t]} a;\n{C[t]} f(void) {{ return -a; }}\n'))
+        cases.append((f'not {t}', f'{C[t]} a;\nint f(void) {{ return !a; }}\n'))
+        cases.append((f'cond {t} 1', f'{C[t]} a;\nlong f(void) {{ return a ? 1L : 2L; }}\n'))
+        cases.append((f'if {t} 1', f'{C[t]} a;\nlong f(void) {{ if (a) return 1L; return 2L; }}\n'))
+        cases.append((f'while {t} 1', f'{C[t]} a;\nlong f(void) {{ while (a) return 1L; return 2L; }}\n'))
+        cases.append((f'while {t} 1', f'{C[t]} a;\nlong f(void) {{ for (; a; ) return 1L; return 2L; }}\n'))
+        cases.append((f'do {t} 1', f'{C[t]} a;\nlong f(void) {{ do {{}} while (a); return 2L; }}\n'))
+        for t2 in O.FTYS + ['i32']:
+            cases.append((f'and {t} {t2} 1', f'{C[t]} a;\n{C[t2]} b;\nint f(void) {{ return a && b; }}\n'))
+            cases.append((f'or {t2} {t} 1', f'{C[t2]} a;\n{C[t]} b;\nint f(void) {{ return a || b; }}\n'))
+    for lit in TIE_LITS:
+        x = parse_literal(lit)
+        r80 = round_mag('f80', x)
+        for suf, fmt in (('', 'f64'), ('f', 'f32'), ('L', 'f80')):
+            # the path of the code: strtold, then the narrowing of ND_NUM's union initialiser
+            bits = inf_bits(fmt, 0) if r80[0] == 'inf' else round_bits(fmt, 0, r80[1])
+            cases.append((f'num {fmt} {bits}', f'{C[fmt]} f(void) {{ return {lit}{suf}; }}\n'))
+    return cases
+
+
+def run_text_tie(ctx, corr):
+    cases = tie_cases(ctx)
+    d = os.path.join(ctx.scratch, 'tie')
+    os.makedirs(d, exist_ok=True)
+    cc = ctx.cc
+
+    def one(k):
+        src = os.path.join(d, f't{k}.c')
+        with open(src, 'w') as f:
+            f.write(cases[k][1])
+        rc, o, e = sh([cc, '-S', '-o', '-', src], timeout=60)
+        return rc, o, e
+    with ThreadPoolExecutor(NPROC) as ex:
+        outs = list(ex.map(one, range(len(cases))))
+    model = ctx.driver('seq', ''.join(spec + '\n' for spec, _ in cases)).splitlines()
+    if len(model) != len(cases):
+        corr.disagreements.append({'kind': 'text tie', 'what': f'driver printed {len(model)} lines for {len(cases)} specs'})
+        return
+    bad = 0
+    for k, ((spec, src), (rc, o, e)) in enumerate(zip(cases, outs)):
+        corr.evaluations += 1
+        corr.count('tie:' + spec.split()[0])
+        if rc != 0:
+            corr.violations.append({'what': 'chibicc -S fails on a one-operation function', 'input': src, 'expected': 'assembly',
+                                    'got': e[-300:]})
+            return
+        impl = asm_body(o)
+        mod = [] if model[k] == 'empty' else (None if model[k] == 'none' else model[k].split(';;'))
+        corr.nontrivial.add('tie ' + spec)
+        if impl is None or mod is None or impl != mod:
+            bad += 1
+            if bad <= 3:
+                j = 0
+                if impl and mod:
+                    j = next((j for j in range(min(len(impl), len(mod))) if impl[j] != mod[j]), min(len(impl), len(mod)))
+                corr.disagreements.append({'kind': 'text tie', 'spec': spec, 'source': src,
+                                           'impl': (impl[j] if impl and j < len(impl) else '<end>') if impl is not None else 'unrecognised function shape',
+                                           'model': (mod[j] if mod and j < len(mod) else '<end>') if mod is not None else 'none',
+                                           'line': j})
+    if bad:
+        corr.count('tie_mismatch', bad)
+    corr.sample({'text tie': {'cases': len(cases), 'example': cases[150][0], 'model': model[150][:160]}})
+
+
 # -------------------------------------------------------------------------------------------------- plugin entry points
 
 def correspond(ctx, corr):
@@ -462,6 +571,7 @@ def correspond(ctx, corr):
                  'long double.  Truth tests: 18 contexts x every boundary operand.  Mixed-type operands: every type pair with a floating '
                  'side.  Constants: decimal/hex spellings x suffixes, halfway cases and their neighbours.  non-trivial = some operand is '
                  'not a non-negative integer below 2^15 (the kind of value the suite samples); distinct = by (operation, types, operand bits).')
+    run_text_tie(ctx, corr)
     run_conversions(ctx, corr)
     run_operators(ctx, corr)
     run_contexts(ctx, corr)
